@@ -35,6 +35,8 @@ def run_block(ev: ConstEval, stmts: List[ast.stmt], env: Dict[str, Any],
                 return out
         elif isinstance(st, ast.For) and not st.orelse:
             seq = ev.ev(st.iter, env)
+            if isinstance(seq, (dict, type({}.items()), type({}.keys()), type({}.values()))):
+                seq = list(seq)
             if not isinstance(seq, (tuple, list, bytes, str)) or isinstance(seq, (Sym, CallVal)):
                 raise AnalysisError(f"mini-interpreter: loop over a non-constant sequence `{src(st.iter)}` (line {st.lineno})")
             broke = False
@@ -69,10 +71,27 @@ def run_block(ev: ConstEval, stmts: List[ast.stmt], env: Dict[str, Any],
                     len(ev.ev(st.value, env)) == len(tgt.elts) and all(ap(t_) for t_ in tgt.elts):
                 for t_, v_ in zip(tgt.elts, ev.ev(st.value, env)):
                     env[ap(t_)] = v_
+            elif isinstance(tgt, ast.Subscript) and ap(tgt.value) in env and isinstance(env[ap(tgt.value)], (dict, list)):
+                # item store into a local container the function built itself (functional update: no aliasing modelled)
+                key = ev.ev(tgt.slice, env)
+                val = ev.ev(st.value, env)
+                cont = env[ap(tgt.value)]
+                if isinstance(key, (Sym, CallVal)):
+                    raise AnalysisError(f"mini-interpreter: item store under a non-constant key `{src(st)}`")
+                if isinstance(cont, dict):
+                    cont = dict(cont)
+                    cont[key] = val
+                else:
+                    cont = list(cont)
+                    cont[key] = val
+                env[ap(tgt.value)] = cont
             else:
                 raise AnalysisError(f"mini-interpreter: unsupported assignment `{src(st)}`")
-        elif isinstance(st, ast.AnnAssign) and st.value is not None and isinstance(st.target, ast.Name):
-            env[st.target.id] = ev.ev(st.value, env)
+        elif isinstance(st, ast.AnnAssign) and st.value is not None and isinstance(st.target, (ast.Name, ast.Attribute)) \
+                and ap(st.target):
+            env[ap(st.target)] = ev.ev(st.value, env)
+        elif isinstance(st, ast.AnnAssign) and st.value is None:
+            continue
         elif isinstance(st, ast.AugAssign) and isinstance(st.target, ast.Name):
             fake = ast.BinOp(left=ast.Name(id=st.target.id, ctx=ast.Load()), op=st.op, right=st.value)
             env[st.target.id] = ev.ev(fake, env)
